@@ -13,6 +13,7 @@ import (
 	"time"
 
 	"github.com/bluenviron/gomavlib/v3/pkg/vmc"
+	"github.com/bluenviron/gomavlib/v3/pkg/vmc/vatomic"
 	"github.com/bluenviron/gomavlib/v3/pkg/vmc/vctx"
 	"github.com/bluenviron/gomavlib/v3/pkg/vmc/vsync"
 	"github.com/bluenviron/gomavlib/v3/pkg/vmc/vtime"
@@ -212,6 +213,124 @@ func main() {
 			c.Recv()
 			vmc.Step("y")
 		}, want: []string{"before,sent"}},
+		{name: "atomic add is a scheduling point, not a lost update", body: func(out *[]string) {
+			var wg vsync.WaitGroup
+			var x vatomic.Int32
+			y := int32(0)
+			for i := 0; i < 2; i++ {
+				wg.Add(1)
+				vmc.Go(func() {
+					x.Add(1)
+					v := vatomic.LoadInt32(&y) // load ; store is not atomic as a whole
+					vatomic.StoreInt32(&y, v+1)
+					wg.Done()
+				})
+			}
+			wg.Wait()
+			*out = append(*out, fmt.Sprint(x.Load(), y))
+		}, want: []string{"2 1", "2 2"}},
+		{name: "atomic compare-and-swap elects one", body: func(out *[]string) {
+			var wg vsync.WaitGroup
+			var flag vatomic.Bool
+			winners := 0
+			for i := 0; i < 3; i++ {
+				wg.Add(1)
+				vmc.Go(func() {
+					if flag.CompareAndSwap(false, true) {
+						winners++
+					}
+					wg.Done()
+				})
+			}
+			wg.Wait()
+			*out = append(*out, fmt.Sprint(winners))
+		}, want: []string{"1"}},
+		{name: "cond: wait sees the signalled state, no lost wake-up", body: func(out *[]string) {
+			var mu vsync.Mutex
+			c := vsync.NewCond(&mu)
+			ready := false
+			done := vmc.NewChan[struct{}](0)
+			vmc.Go(func() {
+				mu.Lock()
+				for !ready {
+					c.Wait()
+				}
+				mu.Unlock()
+				*out = append(*out, "woken")
+				done.Send(struct{}{})
+			})
+			mu.Lock()
+			ready = true
+			mu.Unlock()
+			c.Signal()
+			done.Recv()
+		}, want: []string{"woken"}},
+		{name: "cond: broadcast wakes every waiter", body: func(out *[]string) {
+			var mu vsync.Mutex
+			c := vsync.NewCond(&mu)
+			gen := 0
+			var wg vsync.WaitGroup
+			waiting := 0
+			for i := 0; i < 2; i++ {
+				wg.Add(1)
+				vmc.Go(func() {
+					mu.Lock()
+					waiting++
+					for gen == 0 {
+						c.Wait()
+					}
+					mu.Unlock()
+					wg.Done()
+				})
+			}
+			vmc.Await("both waiting or not", func() bool { return true })
+			mu.Lock()
+			gen = 1
+			mu.Unlock()
+			c.Broadcast()
+			wg.Wait()
+			*out = append(*out, "all")
+		}, want: []string{"all"}},
+		{name: "pool hands back what was put, or makes a new one", body: func(out *[]string) {
+			p := vsync.Pool{New: func() any { return new(int) }}
+			a := p.Get().(*int)
+			*a = 7
+			p.Put(a)
+			b := p.Get().(*int)
+			c := p.Get().(*int)
+			*out = append(*out, fmt.Sprint(*b, *c, a == b, b == c))
+		}, want: []string{"7 0 true false"}},
+		{name: "context values and causes", body: func(out *[]string) {
+			type k struct{}
+			root, cancel := vctx.WithCancelCause(vctx.Background())
+			c1 := vctx.WithValue(root, k{}, "v")
+			c2, cancel2 := vctx.WithTimeout(c1, time.Second)
+			defer cancel2()
+			*out = append(*out, fmt.Sprint(c2.Value(k{}), c2.Value("other")))
+			cancel(fmt.Errorf("why"))
+			c2.Done().Recv()
+			*out = append(*out, fmt.Sprint(c2.Err(), vctx.Cause(c2)))
+			*out = append(*out, fmt.Sprint(vctx.WithoutCancel(c2).Err(), vctx.WithoutCancel(c2).Value(k{})))
+		}, want: []string{"v<nil>,context canceled why,<nil>v"}},
+		{name: "map order: ids given at insertion, any key kind", body: func(out *[]string) {
+			type obj struct{ n int }
+			type key struct {
+				p  *obj
+				id [2]byte
+				ok bool
+			}
+			mk := func(n int) *obj { var o obj; o.n = n; return &o } // neither &T{} nor new(T)
+			m := map[key]int{}
+			for i := 3; i >= 1; i-- {
+				m[vmc.RegKey(key{mk(i), [2]byte{byte(i), 0}, i%2 == 0})] = i
+			}
+			var order []string
+			for _, k := range vmc.SortedKeys(m) {
+				order = append(order, fmt.Sprint(k.p.n))
+			}
+			f := map[float64]bool{2.5: true, -1: true}
+			*out = append(*out, strings.Join(order, ""), fmt.Sprint(len(vmc.SortedKeys(f))))
+		}, want: []string{"321,2"}},
 		{name: "AfterFunc and Once", body: func(out *[]string) {
 			var once vsync.Once
 			done := vmc.NewChan[struct{}](0)
